@@ -857,8 +857,8 @@ std::string
 gen_c14()
 {
 	std::ostringstream t;
-	int mode = *pbt::welem<int>({{3, 0}, {3, 1}, {2, 2}});
-	t << "cfg " << *pbt::range<int>(1, 1000000) << " " << mode << " " << *gen::element(10, 30, 60) << " " << *pbt::range<int>(0, 3) << " 400 0\n";
+	int mode = *pbt::welem<int>({{3, 0}, {3, 1}, {2, 2}, {2, 3}});
+	t << "cfg " << *pbt::range<int>(1, 1000000) << " " << mode << " " << (mode == 3 ? *gen::element(5, 20, 50) : *gen::element(10, 30, 60)) << " " << *pbt::range<int>(0, 3) << " " << (mode == 3 ? *gen::element(60, 150, 400) : 400) << " 0\n";
 	t << "world " << *pbt::range<int>(0, 2) << " " << *pbt::welem<int>({{5, 0}, {1, 1}}) << " " << *pbt::welem<int>({{4, 0}, {1, 1}, {2, 2}, {1, 3}, {2, 4}}) << "\n";
 	auto ops = *gen::container<std::vector<std::string>>(genOp());
 	for (auto &l : ops)
